@@ -202,6 +202,10 @@ def is_system_execute_call(cx: Cx, e: Event) -> bool:
     for t in e.data.get('targets', []):
         if t.name == 'execute' and t.cls is not None and cx.prog.is_subclass(t.cls, sysc):
             return True
+    # an `.execute()` on a receiver whose type the nominal inference cannot see (e.g. an element of a cached snapshot
+    # held in an untyped field) inside the scheduler is still the hook call
+    if e.data.get('target_kind') == 'unknown' and e.data.get('callee_name') == '.execute' and not e.data.get('args'):
+        return True
     return False
 
 
@@ -211,7 +215,9 @@ def execute_reachers(cx: Cx) -> frozenset:
     extracting or merging helper methods does not change what is analysed."""
     direct = set()
     for k, calls in cx.effects.calls.items():
-        if any(is_system_execute_call(cx, c) for c in calls):
+        if k.startswith(CORE + 'SystemManager.') and any(is_system_execute_call(cx, c) for c in calls):
+            direct.add(k)
+        elif any(is_system_execute_call(cx, c) and c.data.get('targets') for c in calls):
             direct.add(k)
     sysc = cx.prog.cls(CORE + 'System')
     hooks = {cx.effects.key(f) for f in cx.prog.all_functions if f.cls is not None and cx.prog.is_subclass(f.cls, sysc)}
@@ -298,6 +304,8 @@ def classify_iterable(it: Term, q: Term) -> str:
     it = strip_versions(it)
     if it == q:
         return 'live'
+    if isinstance(it, Attr) and isinstance(q, Attr) and it.base == q.base and it.name != q.name:
+        return 'stored'       # another field of the scheduler: a snapshot kept across calls
     if isinstance(it, Fresh):
         if it.kind in ('call:list', 'call:tuple', 'copy') and it.items and strip_versions(it.items[0]) == q:
             return 'copy'
@@ -670,3 +678,49 @@ def list_facts(paths: List[Path], p: Path, L: Term, is_base, _table=None, _depth
     mp = {var: r.elem} if var is not None else {}
     return ListFacts(True, '', r.base_src, r.base_var, subst_term(elem, mp), f_and(r.cond, subst_formula(cond, mp)), r.stages + 1,
                      r.forms + (form,))
+
+
+# ---------------------------------------------------------------------------------------------- overrides
+def check_overrides_forward(cx: Cx, cls_q: str, names: List[str], rule='R-FWD'):
+    """A rule verified on cls_q.<name> speaks for the package's subclasses only if their overrides of <name> do nothing but
+    forward: every non-raising path calls super().<name> exactly once with the override's own parameters, unchanged and in
+    place, and returns that result."""
+    base = cx.prog.cls(cls_q)
+    n = 0
+    for sub in cx.prog.subclasses(base, strict=True):
+        for name in names:
+            if name not in sub.methods:
+                continue
+            fn = sub.methods[name][0]
+            n += 1
+            okf = True
+            for p in cx.walker.paths(fn, WalkOptions(unroll=1, callee_raises=False)):
+                if p.end == 'raise':
+                    continue
+                calls = [e for e in p.events if e.kind == 'call' and e.data.get('via') == 'super' and e.data.get('targets')
+                         and e.data['targets'][0].name == name]
+                good = False
+                if len(calls) == 1:
+                    callee = calls[0].data['targets'][0]
+                    from sa.walker import _Ctx, State
+                    b = _Ctx(cx.walker, fn, WalkOptions()).bind_args(callee, calls[0].data.get('recv'), list(calls[0].data.get('args', ())),
+                                                                    dict(calls[0].data.get('kw', ())), State(), True)
+                    if b is not None:
+                        own = set(fn.params[1:] + fn.kwonly)
+                        good = all(b.get(q) == Sym(q) for q in callee.params[1:] if q in own) and \
+                            all(b.get(q) in (Sym(q), None) or q not in own for q in callee.kwonly)
+                        if fn.vararg and callee.vararg:
+                            good = good and b.get(callee.vararg) == Sym('*' + fn.vararg)
+                    rv = p.last.data.get('value') if p.end == 'return' else Const(None)
+                    if good and p.end == 'return' and rv != calls[0].data.get('result') and rv != Const(None):
+                        good = False
+                if not good:
+                    okf = False
+                    cx.violation(rule, fn.qualname, f"override-of-{name}-only-forwards",
+                                 f"{fn.qualname} overrides {cls_q.rsplit('.', 1)[-1]}.{name}, whose behaviour the rules verify, and does "
+                                 f"more than forward its own arguments unchanged to super().{name} and return that result: the verified "
+                                 f"behaviour no longer holds for {sub.name}", where=cx.where(fn), path=p.lines())
+                    break
+            if okf:
+                cx.ok(rule, f"{fn.qualname} only forwards to the verified {name}", where=cx.where(fn), function=fn.qualname)
+    return n
